@@ -409,7 +409,12 @@ def rule_keys(ctx):
         raise AnalysisError("__getitem__: expected one self.find_closest(...) call")
     from ..flow import guard_chain
     gc = guard_chain(enclosing_stmt(fc[0]), implicit=True)
-    tests = [(str(norm(flow.resolve(t_, at=t_, depth=1))).replace(" ", ""), pol) for t_, pol in gc]
+    def _pos(t_, pol):
+        while isinstance(t_, ast.UnaryOp) and isinstance(t_.op, ast.Not):
+            t_, pol = t_.operand, not pol
+        return t_, pol
+    gc = [_pos(flow.resolve(t_, at=t_, depth=1), pol) for t_, pol in gc]
+    tests = [(str(norm(t_)).replace(" ", ""), pol) for t_, pol in gc]
     narrowing = [t_ for t_, pol in tests if pol and t_.startswith("isinstance(") and ("datetime" in t_ or "str" in t_)]
     only_slice = all((not pol and t_.startswith("isinstance(") and t_.endswith(",slice)")) for t_, pol in tests)
     if not narrowing and not only_slice:
